@@ -18,8 +18,18 @@ pub enum Op {
     ReadToEnd,
 }
 
-/// (op, result kind, hash of the delivered bytes, byte count, virtual position after the op)
-pub type Obs = (String, String, u64, usize, u64);
+/// What one operation showed. `vpos` is the virtual position after the operation, `ret` the virtual position a `seek`
+/// RETURNED; both are compared by the uncompressed offset they denote (the caller maps them with the independent walker).
+#[derive(Clone, Debug, PartialEq)]
+pub struct Obs {
+    pub op: String,
+    pub result: String,
+    /// hash of the delivered bytes (`seek_by_uncompressed_position`: of the returned offset)
+    pub hash: u64,
+    pub len: usize,
+    pub vpos: u64,
+    pub ret: Option<u64>,
+}
 
 fn name(op: &Op) -> String {
     match op {
@@ -35,12 +45,17 @@ fn name(op: &Op) -> String {
 fn observe(out: &mut Vec<Obs>, op: &Op, res: io::Result<Vec<u8>>, vpos: u64) -> bool {
     match res {
         Ok(b) => {
-            out.push((name(op), "ok".into(), fnv1a(&b), b.len(), vpos));
+            let o = match op {
+                // the returned virtual position is kept as a value, not as bytes
+                Op::Seek(_) => Obs { op: name(op), result: "ok".into(), hash: 0, len: 0, vpos, ret: b.get(..8).map(|x| u64::from_le_bytes(x.try_into().unwrap())) },
+                _ => Obs { op: name(op), result: "ok".into(), hash: fnv1a(&b), len: b.len(), vpos, ret: None },
+            };
+            out.push(o);
             true
         }
         // nothing is required of the position after an error; the history stops there
         Err(e) => {
-            out.push((name(op), format!("err:{:?}", e.kind()), 0, 0, 0));
+            out.push(Obs { op: name(op), result: format!("err:{:?}", e.kind()), hash: 0, len: 0, vpos: 0, ret: None });
             false
         }
     }
@@ -185,10 +200,11 @@ pub fn gzi_of(walk: &obgzf::Walk) -> gzi::Index {
 pub fn obs_diff(e: Option<&Obs>, g: Option<&Obs>) -> Option<&'static str> {
     match (e, g) {
         (Some(e), Some(g)) if e == g => None,
-        (Some(e), Some(g)) if e.1 != g.1 => Some("result-kind"),
-        (Some(e), Some(g)) if e.3 != g.3 => Some("byte-count"),
-        (Some(e), Some(g)) if e.2 != g.2 => Some("bytes"),
-        (Some(e), Some(g)) if e.4 != g.4 => Some("virtual-position"),
+        (Some(e), Some(g)) if e.result != g.result => Some("result-kind"),
+        (Some(e), Some(g)) if e.len != g.len => Some("byte-count"),
+        (Some(e), Some(g)) if e.hash != g.hash => Some("bytes"),
+        (Some(e), Some(g)) if e.ret != g.ret => Some("returned-position"),
+        (Some(e), Some(g)) if e.vpos != g.vpos => Some("virtual-position"),
         (None, None) => None,
         _ => Some("history-length"),
     }
